@@ -379,9 +379,9 @@ def parallel(ck, runner, rng, tier):
         keep = [x for x in range(1, n + 1) if x % k != 0]
         form = rng.pick(["insert", "ctas", "insert_twice"])
         pre = [f"SET partitions TO {p}", f"SET batch_size TO {b}"]
-        # stored chunks hold up to 2048 rows whatever the session's batch_size; reading them back under a smaller
-        # batch_size panics (known finding F36 of C03), so the table is read under batch_size 8192
-        big = "SET batch_size TO 8192"
+        # stored chunks hold up to 2048 rows whatever the session's batch_size; reading them back under a smaller batch_size
+        # panicked until the repair of F36: the table is read back under the writing batch size or under 8192
+        big = rng.pick(["SET batch_size TO 8192", f"SET batch_size TO {b}"])
         if form == "insert":
             stmts = pre + ["CREATE TEMP TABLE t (a BIGINT, b BIGINT)", f"INSERT INTO t SELECT x, x * 2 FROM generate_series(1, {n}) g(x) WHERE x % {k} <> 0", big,
                            "SELECT count(*), coalesce(sum(a), CAST(0 AS BIGINT)), count(DISTINCT a), coalesce(sum(b), CAST(0 AS BIGINT)) FROM t"]
